@@ -263,3 +263,31 @@ func TestSelfC08IndistinguishableReply(t *testing.T) {
 		t.Fatal("another function code is distinguishable")
 	}
 }
+
+// Seed 41 of the thorough soak: eight genuine bytes, then a flood whose first byte reads as a byte count that fits the
+// end of the second read. Accepted although the MBAP length field (5) contradicts the 233 bytes that follow.
+func TestSelfC08MBAPLengthIgnoredSignature(t *testing.T) {
+	var vs []Violation
+	synctest.Test(t, func(t *testing.T) {
+		req := Req{FC: 3, Addr: 0, Qty: 1}
+		lr, err := BuildLibRequest(req, 1, 1, TCP)
+		if err != nil {
+			t.Fatal(err)
+		}
+		full := FrameTCP(1, 1, []byte{3, 2, 0xAB, 0xCD})
+		reply := append([]byte(nil), full[:8]...)
+		reply = append(reply, 230)
+		for i := 0; i < 253; i++ {
+			reply = append(reply, byte(i*7+3))
+		}
+		sc := &C1{Kind: KTCP, Req: req, Unit: 1, TID: 1, LibReq: lr, Fault: FOversize, Reply: reply, Full: full, Chunks: []Chunk{{N: 8}, {N: 231}, {N: 23}},
+			ReadTimeout: 20 * time.Millisecond, WriteTimeout: time.Second}
+		rc := &RunCtx{Prop: "C08", Tier: "quick", Scen: ReplayTape(nil), Sched: ReplayTape(nil)}
+		out := RunC1(rc, sc)
+		checkC08(rc, sc, out)
+		vs = rc.Violations
+	})
+	if len(vs) != 1 || vs[0].Sig != "C08|success_under_fault|client=tcp|fault=oversize|resp=*packet.ReadHoldingRegistersResponseTCP|mbap_length_ignored" {
+		t.Fatalf("unexpected: %+v", vs)
+	}
+}
